@@ -3,13 +3,20 @@ from dbcommon import *
 import sched as S
 
 PROP = "C07"
-THEOREMS = []
+THEOREMS = [
+    ("C07_prefix_opens", "forall producer ws log k, Forall in_bounds ws -> table_small ws -> log_of ws = Ok log -> exists st f, db_open true producer (firstn k log) = OpenOk st f /\\ is_prefix f log /\\ (length f <= Nat.max k 8)%nat /\\ db_open true producer f = OpenOk st f"),
+    ("C07_survivors_are_written_records", "forall producer ws log k st f, Forall in_bounds ws -> table_small ws -> log_of ws = Ok log -> db_open true producer (firstn k log) = OpenOk st f -> forall b deps h, loaded_for st b = Some (deps, h) -> exists w, In w ws /\\ w_deps w = deps /\\ w_hash w = h /\\ applicable producer w b = true"),
+    ("C07_whole_records_survive", "forall producer ws1 ws2 log1 log k, Forall in_bounds (ws1 ++ ws2) -> table_small (ws1 ++ ws2) -> log_of ws1 = Ok log1 -> log_of (ws1 ++ ws2) = Ok log -> (length log1 <= k)%nat -> exists st f, db_open true producer (firstn k log) = OpenOk st f /\\ is_prefix log1 f /\\ forall b, last_applicable producer ws1 b None <> None -> loaded_for st b <> None"),
+    ("C07_append_after_recovery_exact", "forall producer ws log k st f w bytes tbl', Forall in_bounds ws -> table_small ws -> log_of ws = Ok log -> db_open true producer (firstn k log) = OpenOk st f -> in_bounds w -> (N.of_nat (length (ld_tbl st) + length (w_outs w) + length (w_deps w)) < 16777216)%N -> write_build (ld_tbl st) (w_outs w) (w_deps w) (w_hash w) = Ok (bytes, tbl') -> exists st', db_open true producer (f ++ bytes) = OpenOk st' (f ++ bytes) /\\ ld_tbl st' = tbl' /\\ forall b, loaded_for st' b = if applicable producer w b then Some (w_deps w, w_hash w) else loaded_for st b"),
+    ("C07_append_total", "forall producer ws log k st f w, Forall in_bounds ws -> table_small ws -> log_of ws = Ok log -> db_open true producer (firstn k log) = OpenOk st f -> in_bounds w -> (N.of_nat (length (ld_tbl st) + length (w_outs w) + length (w_deps w)) < 16777216)%N -> exists bytes tbl', write_build (ld_tbl st) (w_outs w) (w_deps w) (w_hash w) = Ok (bytes, tbl')"),
+    ("C07_pinned_refuted", "exists producer ws log k, log_of ws = Ok log /\\ (exists m, db_open false producer (firstn k log) = OpenErr m)"),
+]
 
 
 def main(tier, seed, replay=None):
     run = Run(PROP, tier, seed, "proof")
     rng = random.Random(seed)
-    info, problems = proof_gate(PROP, THEOREMS, extra_modules=["Model.All"], thorough=(tier == "thorough"))
+    info, problems = proof_gate(PROP, THEOREMS, extra_modules=["Model.All", "Proofs.DbSpec"], thorough=(tier == "thorough"))
     for p in problems:
         run.tie("proof gate", p)
     drv = build_driver()
